@@ -69,6 +69,40 @@ pub fn nthreads() -> usize {
 }
 
 // ------------------------------------------------------------------------------------------------
+// Run context (so that an abort path can still leave an evidence file behind)
+
+static RUN_CTX: OnceLock<(String, String)> = OnceLock::new();
+static RUN_START: OnceLock<Instant> = OnceLock::new();
+
+pub fn set_run_context(property: &str, tier: &str) {
+    let _ = RUN_CTX.set((property.to_string(), tier.to_string()));
+    let _ = RUN_START.set(Instant::now());
+}
+
+/// Evidence for a run that ended inside the panic hook / watchdog: only what is known there.
+pub fn write_abort_evidence(what: &str) {
+    let Some((prop, tier)) = RUN_CTX.get() else {
+        return;
+    };
+    let wall = RUN_START.get().map_or(0.0, |t| t.elapsed().as_secs_f64());
+    let ev = json!({
+        "property_id": prop,
+        "tier": tier,
+        "seed": seed(),
+        "level": "other",
+        "coverage": {
+            "explanation": format!("the run stopped at its first violation, inside library code, before the sweep finished: {what}"),
+            "exhaustive": false,
+        },
+        "wall_s": (wall * 1000.0).round() / 1000.0,
+        "violations": 1,
+    });
+    let dir = verif_root().join("evidence");
+    let _ = std::fs::create_dir_all(&dir);
+    let _ = std::fs::write(dir.join(format!("{prop}.json")), serde_json::to_string_pretty(&ev).unwrap() + "\n");
+}
+
+// ------------------------------------------------------------------------------------------------
 // Violations
 
 #[derive(Clone, Debug)]
@@ -353,6 +387,7 @@ pub fn install_guards(hang_secs: u64) {
                     println!("VIOLATION property={} replay={}", s.property, path);
                     println!("  what: a search through the public API aborted instead of returning its matches (see the C07 line above)");
                 }
+                write_abort_evidence(&v.what);
                 use std::io::Write;
                 let _ = std::io::stdout().flush();
                 std::process::exit(1);
@@ -408,6 +443,7 @@ pub fn install_guards(hang_secs: u64) {
                             case,
                         };
                         emit_violation(&v);
+                        write_abort_evidence(&v.what);
                         use std::io::Write;
                         let _ = std::io::stdout().flush();
                         std::process::exit(1);
